@@ -382,6 +382,18 @@ class SyncRun:
                     sv = self.server_view(s) or []
                     u = fe['uid'] or (sv[r.num - 1] if 0 < r.num <= len(sv) else 0)
                     fe['gone'] = bool(data is not None and u and u not in data._messages)
+                else:
+                    # maildir: ground truth is the directory; only the session's own STORE
+                    # asks (Trace_Recent), so the directory is read only then
+                    inf = self.inflight.get(s)
+                    nm = self.selected_name(s)
+                    if inf and inf['cmd'][0] == 'store' and nm:
+                        sv = self.server_view(s) or []
+                        u = fe['uid'] or (sv[r.num - 1] if 0 < r.num <= len(sv) else 0)
+                        try:
+                            fe['gone'] = bool(u and u not in self.truth(nm)[0])
+                        except Exception:      # noqa: BLE001
+                            pass
                 ev.append(fe)
             elif r.name == b'SEARCH':
                 inf = self.inflight[s]
